@@ -81,6 +81,7 @@ type parser struct {
 	t   []tok
 	pos int
 	src string
+	tab map[string]int // nil: parsePrec
 }
 
 func (p *parser) peek() tok {
@@ -108,7 +109,11 @@ func (p *parser) expr(min int) Expr {
 		if t.k != "op" {
 			return l
 		}
-		pr, ok := parsePrec[t.s]
+		tab := p.tab
+		if tab == nil {
+			tab = parsePrec
+		}
+		pr, ok := tab[t.s]
 		if !ok || pr < min {
 			return l
 		}
@@ -306,3 +311,17 @@ func R(name string, sal *int64, when string, then ...string) *Rule {
 
 // Sal is a helper returning a pointer to v.
 func Sal(v int64) *int64 { return &v }
+
+// EWith parses an expression with a caller-supplied precedence table (panics on errors).
+func EWith(src string, tab map[string]int) Expr {
+	ts, err := lex(src)
+	if err != nil {
+		panic(err)
+	}
+	p := &parser{t: ts, src: src, tab: tab}
+	e := p.expr(1)
+	if p.pos != len(ts) {
+		panic(fmt.Sprintf("grl.EWith(%q): trailing tokens at %d", src, p.pos))
+	}
+	return e
+}
